@@ -156,6 +156,66 @@ def u_null_run(h, solver, penalty, X, fit_intercept, below, p0=1, greedy=False):
             h.ensure('moves-below-alpha_max', h.any_([h.ne(w[k], 0) for k in range(p)]))
 
 
+def u_null_multitask(h, fit_intercept, below, T=1, cold=False):
+    """MultiTaskBCD from a cold start: for alpha >= alpha_max (computed at the null model with the optimal intercept) the
+    coefficient rows stay exactly zero and a tolerance stop certifies the intercept as well"""
+    import skglm.solvers as S
+    Pm, Dm = P(), D()
+    Xc = X_of('corr32')
+    n, p = Xc.shape
+    tol = h.real('tol')
+    A = h.real('alpha')
+    h.assume(tol > 0, A > 0)
+    Y = h.mat('Y', n, T)
+    ybar = [sum(Y[i, t] for i in range(n)) / n if fit_intercept else 0.0 for t in range(T)]
+    # alpha_max = max_j || X_j^T (Y - ybar) || / n   (doc/tutorials/alpha_max.rst); T = 1: absolute value
+    g0 = [[-sum(Xc[i, j] * (Y[i, t] - ybar[t]) for i in range(n)) / n for t in range(T)] for j in range(p)]
+    from vf.shim import _smax
+    am = None
+    for j in range(p):
+        nj = abs(g0[j][0])
+        am = nj if am is None else (_smax(am, nj) if h.mode == 'sym' else max(am, nj))
+    if below:
+        h.assume(A < am)
+    else:
+        h.assume(A >= am)
+    pen = h.penalty(Pm.L2_1, alpha=A)
+    df = h.datafit(Dm.QuadraticMultiTask)
+    sol = S.MultiTaskBCD(max_iter=2, max_epochs=1, p0=2, tol=tol, fit_intercept=fit_intercept, use_acc=False)
+    # start at the null model (zero rows, loss-minimising intercept)
+    rows = [[0.0] * T for _ in range(p)] + ([[ybar[t] for t in range(T)]] if fit_intercept else [])
+    W0 = h.arr(rows) if h.mode == 'sym' else np.array(rows, dtype=float)
+    XW0 = h.arr([[ybar[t] * 1.0 if fit_intercept else 0.0 for t in range(T)] for _ in range(n)]) if h.mode == 'sym' else \
+        np.array([[float(ybar[t]) if fit_intercept else 0.0 for t in range(T)] for _ in range(n)])
+    if cold:
+        # cold start (zero intercept): whatever alpha, a tolerance stop must certify the intercept of every task
+        W, obj, sc = sol._solve(h.const(Xc), Y, df, pen)
+        h.observe('W0', W[0, 0])
+        stopped = h.le(sc, tol)
+        cert = h.true()
+        for t in range(T):
+            cert = h.and_(cert, h.le(abs(sum(Y[i, t] - sum(Xc[i, j] * W[j, t] for j in range(p)) - W[p, t] for i in range(n)) / n), tol))
+        h.ensure('intercept-certified-on-stop', h.implies(stopped, cert))
+        return
+    W, obj, sc = sol._solve(h.const(Xc), Y, df, pen, W0, XW0)
+    for j in range(p):
+        h.observe('W%d' % j, W[j, 0])
+    if not below:
+        h.ensure('null-solution', h.all_([h.eq(W[j, t], 0) for j in range(p) for t in range(T)]))
+        if fit_intercept:
+            # a tolerance stop must certify the intercept too: |mean(Y - b)| <= tol per task
+            stopped = h.le(sc, tol)
+            cert = h.true()
+            for t in range(T):
+                cert = h.and_(cert, h.le(abs(ybar[t] - W[p, t]), tol))
+            h.ensure('intercept-certified-on-stop', h.implies(stopped, cert))
+    else:
+        if len(obj) == 0:
+            h.ensure('moves-below-alpha_max', True)
+        else:
+            h.ensure('moves-below-alpha_max', h.any_([h.ne(W[j, 0], 0) for j in range(p)]))
+
+
 def units(tier):
     us = []
     q = tier == 'quick'
@@ -188,6 +248,12 @@ def units(tier):
             us.append(Unit('C16/D/GramCD[%s,greedy=%s,below=%s]' % (pen, greedy, below), u_null_run,
                            dict(solver='GramCD', penalty=pen, X='corr32', fit_intercept=False, below=below, greedy=greedy),
                            wall_s=120, timeout_ms=8000))
+    for fi in (False, True):
+        for below in ((False,) if q else (False, True)):
+            us.append(Unit('C16/D/MultiTaskBCD[intercept=%s,below=%s]' % (fi, below), u_null_multitask,
+                           dict(fit_intercept=fi, below=below), wall_s=120 if q else 400, timeout_ms=8000))
+    us.append(Unit('C16/D/MultiTaskBCD[cold-start,intercept=True]', u_null_multitask,
+                   dict(fit_intercept=True, below=False, cold=True), wall_s=120, timeout_ms=8000))
     for fi in (False, True):
         for below in (False, True):
             us.append(Unit('C16/D/ProxNewton[L1,intercept=%s,below=%s]' % (fi, below), u_null_run,
